@@ -217,6 +217,13 @@ def rules(P, R, prefix="C07"):
                     R.judge(bool(resets), prefix + ".Y3", key(sn, "retry timer re-armed on every path" + tag), tb["sp"], "",
                             "the retry arm does not unconditionally re-arm its timer: after one expiry no further retries happen")
 
+        from ..common import fresh_timer_arms
+        fta = fresh_timer_arms([f for f in prog.fns.values() if f.self_ty == SYNC and not f.derived])
+        for (f_, n_, b_), i in ordinal_keys(fta, lambda x: x[0].path):
+            R.fail(prefix + ".Y3", key(f_, "retry timer is created outside the loop" + tag, i), n_["sp"],
+                   "the retry timer is created in the select! arm itself (`%s`): every block parked or resumed meanwhile restarts it, so an unanswered "
+                   "request is never retried while proposals keep arriving" % ir.pp(b_["fut"], maxlen=80))
+        R.ok(prefix + ".Y3", "no per-iteration retry timer" + tag + " (%d found)" % len(fta), "", "")
         # ---------------- Y4 store-after-ancestors
         run, handlers, loopback, timer = core_handlers(prog)
         writers = [(f, n) for f, n in prog.calls_to("store::Store::write") if f.path.startswith("consensus::")]
@@ -236,6 +243,13 @@ def rules(P, R, prefix="C07"):
                 ok, _ = implies(pc, req)
                 R.judge(ok, prefix + ".Y4", key(f, "store_block only after get_ancestors(block) returned Some" + tag, i), n["sp"], show(req),
                         "a block is stored (becomes servable / usable as parent) before its ancestors were found (path condition %s)" % show(pc))
+                # ... and EVERY block whose ancestors are known is stored, whatever its round: blocks parked on it (its children,
+                # received while it was waiting for its payload or its own parent) only resume when it is written
+                from ..analysis import atoms_of as _at
+                extra = [a for a in _at(pc) if not a.startswith(("ok(", "some("))]
+                R.judge(not extra, prefix + ".Y4", key(f, "every block with known ancestors is stored" + tag, i), n["sp"], show(pc),
+                        "store_block is reached only under the additional condition(s) %s: a block failing them is never stored, so the blocks "
+                        "parked on it never resume and peers cannot fetch it" % extra)
         dels = prog.call_sites(lambda p, i: p.startswith("rocksdb::") and ("delete" in p or "remove" in p))
         R.judge(not dels, prefix + ".Y4", "no store deletion" + tag, "", "", "store entries can be deleted at %s" % [n["sp"] for _f, n in dels])
 
